@@ -103,12 +103,9 @@ class bspline(object):
                 bkpt = np.arange(nbkpts, dtype='f') * tempbkspace + startx
             elif everyn is not None:
                 nx = x.size
-                nbkpts = max(nx//everyn, 1)
-                if nbkpts == 1:
-                    xspot = [0]
-                else:
-                    xspot = int(nx/(nbkpts-1)) * np.arange(nbkpts, dtype='i4')
-                bkpt = x[xspot].astype('f')
+                nbkpts = max(nx//everyn, 2)
+                xspot = np.minimum(int(nx/(nbkpts-1)) * np.arange(nbkpts, dtype='i4'), nx-1)
+                bkpt = np.sort(x)[xspot].astype('f')
             else:
                 raise ValueError('No information for bkpts.')
         imin = bkpt.argmin()
